@@ -28,8 +28,7 @@ def records(ctx, count):
     return out
 
 
-def run(ctx):
-    rep = ctx.report
+def build(ctx):
     cc, flags = H.FLAVOURS["asan"]
     out = os.path.join(ctx.work.sub("bin"), "vh_linuxport")
     srcs = [os.path.join(H.HARN, "vh_linuxport.c"), os.path.join(H.REPO, "os/linux/lltd_port.c")] + \
@@ -39,12 +38,22 @@ def run(ctx):
     r = subprocess.run(cmd, stdout=subprocess.PIPE, stderr=subprocess.STDOUT, text=True)
     if r.returncode != 0:
         raise H.BuildError("vh_linuxport: " + r.stdout[-3000:])
+    return out
+
+
+def record_line(x):
+    return "%s %d %d %d %d %d %s %s %s" % (x["mac"].hex(), x["mtu"], x["iftype"], x["medium"], x["speed"], x["flags"],
+                                          x["ipv4"].hex() if x["ipv4"] else "-", x["ipv6"].hex() if x["ipv6"] else "-",
+                                          "!" if x["host"] is None else (x["host"].hex() or "-"))
+
+
+def run(ctx):
+    rep = ctx.report
+    out = build(ctx)
     recs = records(ctx, ctx.n(5000, 200000))
     lines = []
     for x in recs:
-        lines.append("%s %d %d %d %d %d %s %s %s" % (x["mac"].hex(), x["mtu"], x["iftype"], x["medium"], x["speed"], x["flags"],
-                                                    x["ipv4"].hex() if x["ipv4"] else "-", x["ipv6"].hex() if x["ipv6"] else "-",
-                                                    "!" if x["host"] is None else (x["host"].hex() or "-")))
+        lines.append(record_line(x))
     env = dict(os.environ)
     env.update(H.SAN_ENV)
     p = subprocess.run([out], input="\n".join(lines) + "\n", stdout=subprocess.PIPE, stderr=subprocess.PIPE, text=True, env=env,
